@@ -225,7 +225,7 @@ class ArbiterPriority(Arbiter):
             imp = self.inimps.fetch(tag)  # or could use form self.inimps[tag]
             if (  self.insels.fetch(tag) and
                   (truth > self.default.truth) and
-                  (imp > impmax) ):
+                  (inputmax is None or imp > impmax) ):
                 inputmax = input
                 impmax = imp
                 truthmax = truth
